@@ -360,6 +360,12 @@ func exhaustiveC05(thorough bool, emit func(C05Case) bool) {
 		}
 	}
 	// multi-byte tokens at the start and inside of names, first and later trees
+	// a delimiter next to every other byte, inside and across machine words of a name
+	if !bytePairFields("'(),:;_ []\"&", "", func(v gen.B) bool {
+		return emit(C05Case{Trees: []gen.TreeSpec{{Parents: []int{0, 0}, Names: []gen.B{gen.B("r"), v, gen.B("k")}, Dists: []gen.F{0, 1.5}}}})
+	}) {
+		return
+	}
 	// twin names: sibling nodes and consecutive trees whose names differ in one byte
 	if !twinFields(func(a, b gen.B) bool {
 		ts := gen.TreeSpec{Parents: []int{0, 0, 0}, Names: []gen.B{a, b, a, b}, Dists: []gen.F{0, 1.5}}
